@@ -12,6 +12,7 @@ import (
 	"reflect"
 	"sort"
 	"strings"
+	"time"
 
 	el "github.com/hashicorp/eventlogger"
 	"github.com/hashicorp/eventlogger/filters/encrypt"
@@ -61,6 +62,13 @@ type encLeaf struct {
 	N       int
 	Fl      float64
 	Ok      bool
+	When    time.Time
+}
+
+// encEmb embeds a tagged struct (promoted fields) and adds one of its own.
+type encEmb struct {
+	encLeaf
+	Extra string `class:"secret"`
 }
 
 type encOuter struct {
@@ -311,6 +319,8 @@ func (g *encGen) leaf(where string) encLeaf {
 			v.Field(i).SetFloat(float64(g.d.next(1000)) / 7)
 		case reflect.TypeOf(true):
 			v.Field(i).SetBool(true)
+		case reflect.TypeOf(time.Time{}):
+			v.Field(i).Set(reflect.ValueOf(time.Date(2026, 1, 1, 0, 0, g.d.next(60), 0, time.UTC)))
 		}
 	}
 	return l
@@ -495,6 +505,10 @@ func (g *encGen) payload(kind int, depth int) (interface{}, string) {
 		return g.tagStruct("tagstruct"), "*taggable-struct"
 	case 11:
 		return []*encOuter{g.outer("[]*outer", 0)}, "[]*struct(outer)"
+	case 13:
+		return wrapperspb.String(g.canary("redact", "*wrapperspb.Value")), "*wrapperspb.StringValue"
+	case 14:
+		return &encEmb{encLeaf: g.leaf("*emb.encLeaf"), Extra: g.canary(g.treatFor("secret", true), "*emb.Extra")}, "*struct(embedded)"
 	default:
 		return g.outer("*outer", depth), "*struct"
 	}
@@ -835,7 +849,7 @@ func runEncrypt(rc *RunCtx, prop string) {
 			d := &drawRec{tape: tp}
 			fill := []int{15, 40, 80}[tp.Choose(3, "fill")]
 			g := &encGen{d: d, exp: map[string]*leafExp{}, overrides: overrides, fill: fill, withIgnored: withIgnored}
-			kind := tp.Choose(13, "kind")
+			kind := tp.Choose(15, "kind")
 			depth := tp.Choose(3, "depth")
 			var payload interface{}
 			var top string
